@@ -203,6 +203,83 @@ pub fn exact_y3(x: U, z: U, d: U, amp: u64) -> U {
 }
 
 /// Self-test of the reference maths against brute force on small values. Panics on mismatch.
+// ---------------------------------------------------------------------------------------------
+// The documented integer algorithm of the three-asset pool (Curve / saber "stable-swap" Newton
+// iterations with a truncating division at every step), written out independently. It is NOT
+// the oracle of any property: the oracle is the exact D above. It only tells whether a loss of
+// exact D is inherent to the documented integer scheme (the listed finding) or comes from
+// somewhere else (a violation).
+// ---------------------------------------------------------------------------------------------
+
+/// D by integer Newton iteration; `a`, `b`, `c` in the order the divisions are applied.
+pub fn int_newton_d3(a: U, b: U, c: U, amp: u64) -> U {
+    let s = a + b + c;
+    if s.is_zero() {
+        return U::ZERO;
+    }
+    let n = u(3);
+    let ann = u(amp as u128) * n;
+    let mut d = s;
+    for _ in 0..256 {
+        let mut p = d;
+        p = p * d / (a * n);
+        p = p * d / (b * n);
+        p = p * d / (c * n);
+        let prev = d;
+        d = d * (p * n + s * ann) / (d * (ann - U::ONE) + p * u(4));
+        let diff = if d > prev { d - prev } else { prev - d };
+        if diff <= U::ONE {
+            break;
+        }
+    }
+    d
+}
+
+/// New balance of the ask asset by integer Newton iteration.
+pub fn int_newton_y3(x_in: U, no_swap: U, d: U, amp: u64) -> U {
+    let n = u(3);
+    let ann = u(amp as u128) * n;
+    let mut c = d;
+    c = c * d / (x_in * n);
+    c = c * d / (no_swap * n);
+    c = c * d / (ann * n);
+    let b = d / ann + x_in + no_swap;
+    let mut y = d;
+    for _ in 0..1000 {
+        let prev = y;
+        y = (y * y + c) / (y * u(2) + b - d);
+        let diff = if y > prev { y - prev } else { prev - y };
+        if diff <= U::ONE {
+            break;
+        }
+    }
+    y
+}
+
+/// Gross output of a swap of `dx` (offer reserve `x`, ask reserve `y`, third reserve `z`).
+pub fn int_swap3(amp: u64, dx: u128, x: u128, y: u128, z: u128) -> Option<u128> {
+    if x == 0 || y == 0 || z == 0 {
+        return None;
+    }
+    let d = int_newton_d3(u(x), u(y), u(z), amp);
+    let y_new = int_newton_y3(u(x) + u(dx), u(z), d, amp);
+    let y_new = to_u128(y_new)?;
+    y.checked_sub(y_new)?.checked_sub(1)
+}
+
+/// LP minted for a deposit into a live pool.
+pub fn int_mint3(amp: u64, dep: [u128; 3], pools: [u128; 3], supply: u128) -> Option<u128> {
+    if pools.iter().any(|p| *p == 0) {
+        return None;
+    }
+    let d0 = int_newton_d3(u(pools[0]), u(pools[1]), u(pools[2]), amp);
+    let d1 = int_newton_d3(u(pools[0]) + u(dep[0]), u(pools[1]) + u(dep[1]), u(pools[2]) + u(dep[2]), amp);
+    if d1 <= d0 {
+        return None;
+    }
+    to_u128(u(supply) * (d1 - d0) / d0)
+}
+
 pub fn self_test() {
     // isqrt
     for n in 0u128..2000 {
